@@ -1,0 +1,51 @@
+#![allow(dead_code)]
+//! Verification hooks (cargo feature `verif`, off by default).
+//!
+//! Appends one JSON object per line to the file named by the environment
+//! variable `FSELECT_VERIF_TRACE`. Nothing is written when the variable is unset.
+//! fselect is single-threaded, so the thread-local log cannot race with the state it shadows.
+
+use std::cell::RefCell;
+use std::fs::{File, OpenOptions};
+use std::io::{BufWriter, Write};
+
+thread_local! {
+    static LOG: RefCell<Option<Option<BufWriter<File>>>> = const { RefCell::new(None) };
+}
+
+pub fn enabled() -> bool {
+    LOG.with(|log| {
+        let mut log = log.borrow_mut();
+        if log.is_none() {
+            let file = std::env::var_os("FSELECT_VERIF_TRACE").and_then(|p| {
+                OpenOptions::new().create(true).append(true).open(p).ok()
+            });
+            *log = Some(file.map(BufWriter::new));
+        }
+        log.as_ref().unwrap().is_some()
+    })
+}
+
+/// Emits one event. `fields` are (name, value) pairs; values are written as JSON strings.
+pub fn emit(kind: &str, fields: &[(&str, String)]) {
+    if !enabled() {
+        return;
+    }
+
+    let mut line = String::from("{\"ev\":");
+    line.push_str(&serde_json::to_string(kind).unwrap_or_default());
+    for (name, value) in fields {
+        line.push(',');
+        line.push_str(&serde_json::to_string(name).unwrap_or_default());
+        line.push(':');
+        line.push_str(&serde_json::to_string(value).unwrap_or_default());
+    }
+    line.push_str("}\n");
+
+    LOG.with(|log| {
+        if let Some(Some(w)) = log.borrow_mut().as_mut() {
+            let _ = w.write_all(line.as_bytes());
+            let _ = w.flush();
+        }
+    });
+}
